@@ -223,6 +223,24 @@ def rule_offline(ctx, rep):
             rep.ok("C03.offline", "qsbr.sleep@%s" % s.short(), "sleep reached only while offline/unregistered", [s.where()])
         else:
             rep.bad("C03.offline", "qsbr.sleep@%s" % s.short(), "qsbr helper sleeps while online: every grace period waits for its sleep to end", c01_path(f, hit, par))
+    # ... and runs callbacks only while online: a callback may take the read-side lock (the source says so where the helper registers), and
+    # an offline qsbr thread's sections are invisible to grace periods
+    ics = [i for i in f.all_insts() if i.op == "icall" and (lambda e: e[0] == "load" and e[1].endswith("rcu_head.func"))(ir.expr(f, i.d["fp"]))]
+    pat.require(ics, "qsbr: helper invokes no callback")
+    hit, par = f.reach(calls_off, ics, avoid=lambda i: i in calls_on)
+    rep.check(hit is None, "C03.offline", "qsbr.callbacks-run-online", "callbacks are invoked only after the helper went back online",
+              "the qsbr helper invokes callbacks while offline: a read-side section inside a callback is not waited for by any grace period", c01_path(f, hit, par) if hit is not None else [])
+    for fl in ("memb", "mb", "qsbr"):
+        F2 = FL[fl]
+        g = ctx.fn(F2.lib, "call_rcu_thread")
+        rep.touch(g)
+        reg = pat.calls(g, F2.pfx + "_register_thread")
+        ics2 = [i for i in g.all_insts() if i.op == "icall" and (lambda e: e[0] == "load" and e[1].endswith("rcu_head.func"))(ir.expr(g, i.d["fp"]))]
+        pat.require(ics2, "%s: helper invokes no callback" % fl)
+        if not reg:
+            rep.bad("C03.offline", fl + ".helper-registered", "the helper thread never registers as an RCU reader: read-side sections taken by callbacks are not waited for", [g.name])
+        else:
+            rep.must_pass("C03.offline", fl + ".helper-registered", g, [g.entry()], ics2, lambda i: i in reg, include_start=True, what="the helper registers as reader before it invokes any callback")
 
 
 def c01_path(f, hit, par):
